@@ -548,6 +548,38 @@ type execution struct {
 	unstableRead            string
 	adds                    int
 	addError                string // Add returned an error (no observation was made)
+	// resolving by one instant in several representations of the time.Time value gave different answers (class, detail)
+	queryRepClass, queryRepDetail string
+}
+
+// queryRepresentations: resolving by time must depend on the INSTANT asked for, not on the form of the time.Time value:
+// every probe instant of the set (each signing instant exactly, one second before the first, one after the last) is asked
+// for in four more representations and the answers are compared with the plain one, on one and the same store.
+func queryRepresentations(s didstore.Store, c *compiled) (class, detail string) {
+	for d := 0; d < c.nDIDs; d++ {
+		id := c.dids[d]
+		for _, tm := range c.times {
+			plainT := tm.UTC()
+			for _, allow := range []bool{true, false} {
+				if !allow && !c.hasDeactivation(d) {
+					continue
+				}
+				plain := normalise(s.Resolve(id, &resolver.ResolveMetadata{ResolveTime: &plainT, AllowDeactivated: allow})).String()
+				for _, rep := range []string{"mono", "unix-local", "zone", "zone0"} {
+					q := represent(plainT, rep)
+					got := normalise(s.Resolve(id, &resolver.ResolveMetadata{ResolveTime: &q, AllowDeactivated: allow})).String()
+					if got != plain {
+						cls := resultDiff(plain, got, false)
+						if cls == "" {
+							cls = "other"
+						}
+						return cls, fmt.Sprintf("DID %d, ResolveTime %s (allowDeactivated=%v): asked as %q the answer is %s, asked in plain UTC it is %s", d, offLabel(plainT), allow, rep, clip(got), clip(plain))
+					}
+				}
+			}
+		}
+	}
+	return "", ""
 }
 
 // restart closes the bbolt file, opens it again and builds a new store over it (a process restart).
@@ -597,6 +629,9 @@ func runMode(t *testing.T, c *compiled, order []int, reads int, mode string) exe
 		}
 	}
 	x.obs = observe(t, in.store, c)
+	if reads > 1 {
+		x.queryRepClass, x.queryRepDetail = queryRepresentations(in.store, c)
+	}
 	for k := 1; k < reads; k++ {
 		if again := observe(t, in.store, c); again.key() != x.obs.key() {
 			x.unstableRead = classNames(memberDiffs(x.obs.Fields, again.Fields, false, func(string) bool { return true }))
@@ -636,6 +671,10 @@ func plainReps(sc scenario) (scenario, bool) {
 			out.Events[i].Rep = ""
 			changed = true
 		}
+	}
+	if len(out.DupRep) > 0 {
+		out.DupRep = nil
+		changed = true
 	}
 	return out, changed
 }
@@ -941,6 +980,10 @@ func judge(r *ev.Run, c *compiled, order []int, x execution, label string) {
 	}
 	if x.unstableRead != "" {
 		r.Violation("C10|read-stability|"+x.unstableRead, fmt.Sprintf("two consecutive reads of the same store state differ (%s) for set %s", x.unstableRead, c.name), rcase)
+	}
+	if x.queryRepClass != "" {
+		r.Violation("C10|resolve-by-time|representation-of-resolve-time|"+x.queryRepClass,
+			fmt.Sprintf("set %s, order %v: resolving by the same instant gives another answer when the time.Time value has another representation: %s", c.name, order, x.queryRepDetail), rcase)
 	}
 	if x.obs.byHashMismatch != "" {
 		r.Observation("resolve-by-hash-of-a-stored-version-returns-other-bytes", map[string]any{"set": c.name, "order": order, "where": x.obs.byHashMismatch})
